@@ -363,6 +363,13 @@ def alt_values(surf, cfg):
     if "fem_origin" in surf:
         surf["fem_origin"] = 0.45
     surf["CL0"] = surf.get("CL0", 0.0) + 0.07
+    if "data_x_upper" in surf:
+        # another wingbox section: box from 25 % to 70 % chord, other thickness distribution
+        x = np.linspace(0.25, 0.70, len(surf["data_x_upper"]))
+        surf["data_x_upper"] = x.copy()
+        surf["data_x_lower"] = x.copy()
+        surf["data_y_upper"] = 0.055 * np.sqrt(1 - ((x - 0.4) / 0.65) ** 2) + 0.002
+        surf["data_y_lower"] = -0.045 * np.sqrt(1 - ((x - 0.38) / 0.68) ** 2) - 0.001
 
 
 def make_multisec(cfg, fam, mode):
@@ -633,6 +640,10 @@ FRESH_MENU = [
     dict(kind="aero", sym=True, comp=True, ground=False, visc=True, wave=False, ns=1, name="wing", size=[3, 4], side="right"),
     dict(kind="as", model="tube", sym=True, relief=True, side="left", ny=3),
     dict(kind="as", model="tube", sym=True, relief=True, side="right", ny=3),
+    # same names and shapes, every dictionary value different (material, coefficients, wingbox section data)
+    dict(kind="as", model="wingbox", sym=True, relief=True),
+    dict(kind="as", model="wingbox", sym=True, relief=True, alt=True),
+    dict(kind="struct", model="tube", sym=True, side="left", ny=4, alt=True),
 ]
 _FRESH = {}
 
